@@ -500,7 +500,7 @@ func famTamper(r *Rand) *seqScenario {
 				// exactly what the next load reads: the right edge of the committed tree
 				key = []string{"@edgedata", "@edgedata", "@edgehash0", "@edgehash1", "@edgenames"}[r.Intn(5)]
 			}
-			mut := []string{"delete", "truncate", "flip", "flip", "copyfrom", "rollback"}[r.Intn(6)]
+			mut := []string{"delete", "truncate", "flip", "flipraw", "flipraw", "copyfrom", "rollback"}[r.Intn(7)]
 			if mut == "rollback" {
 				// only keys that are ever rewritten or removed have earlier versions
 				key = []string{"checkpoint", "checkpoint", "@staging"}[r.Intn(3)]
@@ -522,7 +522,7 @@ func famTamper(r *Rand) *seqScenario {
 		if r.Chance(60) {
 			// the objects a load reads last: the right-edge hash tiles and the right-edge data tile
 			edge := []string{"@hashtile", "@edgehash0", "@edgehash1", "@edgedata", "@datatile", "tile/0/000"}
-			b.cmd(seqCmd{Op: "tamper", Key: edge[r.Intn(len(edge))], Mut: []string{"flip", "truncate", "delete", "copyfrom"}[r.Intn(4)], V: int64(r.Intn(1 << 20)), Name: keys[r.Intn(len(keys))]})
+			b.cmd(seqCmd{Op: "tamper", Key: edge[r.Intn(len(edge))], Mut: []string{"flip", "flipraw", "truncate", "delete", "copyfrom"}[r.Intn(5)], V: int64(r.Intn(1 << 20)), Name: keys[r.Intn(len(keys))]})
 		} else {
 			tamperSome()
 		}
